@@ -41,7 +41,7 @@ pub struct Printer<'a> {
     plain: bool,
 }
 
-const COMMENTS: &[&str] = &["[- c -]", "[- note: x -]", "[--]", "[- @x{1} -]", "[- a\nb -]"];
+const COMMENTS: &[&str] = &["[- c -]", "[- note: x -]", "[--]", "[- @x{1} -]", "[-- note --]", "[---]", "[- x --]", "[- a - b -]", "[- é ] -]", "[- a\nb -]"];
 const LINE_COMMENTS: &[&str] = &["-- c", "--", "-- @y{2%kg} >> k: v", "--- dashes"];
 
 impl<'a> Printer<'a> {
@@ -558,9 +558,11 @@ impl<'a> Printer<'a> {
                     } else if style == 1 {
                         self.out.push_str(" ==");
                     }
-                    if !self.plain && self.tape.chance(1, 8) {
+                    if !self.plain && self.tape.chance(1, 6) {
                         self.f.comments += 1;
-                        self.out.push_str(" -- section");
+                        // after the header: blanks and any number of comments
+                        let t = [" -- section", " [- c -]", " [- c -] -- d", " [- a -] [- b -]  ", "[- c -][-- d --]\t", "  "][self.tape.pick(6) as usize];
+                        self.out.push_str(t);
                     }
                     prev_multiline = false;
                 }
